@@ -176,12 +176,21 @@ def history(dc, sc, res, rng, label):
             elif op == 'len':
                 got, exp = outcome(lambda: len(D)), outcome(lambda: len(R))
             else:   # EVENT
-                ev = gen.pick(rng, ['reopen', 'pickle', 'copy', 'squeeze', 'clockjump'])
+                ev = gen.pick(rng, ['reopen', 'pickle', 'copy', 'squeeze', 'clockjump', 'reopen_iterable'])
                 hist.append(('EVENT', ev))
                 if ev == 'reopen' and how == 'directory':
                     D.cache.close()
                     D = dc.Deque(directory=d, maxlen=maxlen)
                     res.count('reopen_events')
+                elif ev == 'reopen_iterable' and how == 'directory':
+                    # the constructor extends what is already stored (and trims to maxlen)
+                    more = [val() for _ in range(rng.randrange(0, 3))]
+                    D.cache.close()
+                    D = dc.Deque(more, directory=d, maxlen=maxlen)
+                    R.extend(more)
+                    res.count('reopen_events')
+                    if not same(list(D), list(R)):
+                        return fail('Deque(iterable, directory) on an existing directory holds %r, expected %r' % (list(D)[:8], list(R)[:8]))
                 elif ev == 'pickle':
                     D2 = pickle.loads(pickle.dumps(D))
                     extra.append(D2)
